@@ -232,8 +232,8 @@ class Model(object):
         if tag in ("datamodel", "transition", "state", "parallel", "final", "history", "initial", "onentry", "onexit", "invoke", "donedata"):
             return
         self.tokens.append(("c", e.xpath()))
-        if e.xpath() in self.fail_elems:
-            self.raise_internal(e.meta.get("fail_event", "error.execution"))
+        if e.xpath() in self.fail_elems and tag != "if":
+            self.raise_internal(self.fail_elems[e.xpath()] if isinstance(self.fail_elems, dict) else "error.execution")
             raise ExecError()
         if tag == "raise":
             self.raise_internal(e.attrs["event"])
@@ -286,11 +286,16 @@ class Model(object):
                     ok = True
                 else:
                     ast = head.meta.get("cond_ast")
-                    try:
-                        ok = bool(self.ev(ast)) if ast is not None else True
-                    except ExecError:
+                    if head.xpath() in self.fail_elems:
+                        # a failing condition raises error.execution and counts as false; the block goes on
                         self.raise_internal("error.execution")
                         ok = False
+                    else:
+                        try:
+                            ok = bool(self.ev(ast)) if ast is not None else True
+                        except ExecError:
+                            self.raise_internal("error.execution")
+                            ok = False
                 if ok:
                     for c in body:
                         self.execute(c)
